@@ -83,6 +83,7 @@ func init() {
 		s := startSim()
 		r := &reader{toks: a}
 		_ = r.next() // cache capacity the process was configured with (used by the model only)
+		_ = r.next() // port base (the model needs to know which host:port strings are simulator hosts)
 		nu := r.next()
 		universe := make([]string, nu)
 		for i := range universe {
@@ -101,6 +102,7 @@ func init() {
 			libOut = putText(libOut, p.String())
 			emitLib(b2i(p.Scheme == "https"))
 			libOut = putText(libOut, p.Host)
+			libOut = putText(libOut, p.RequestURI())
 		}
 		for i := range universe {
 			if parsed[i] == nil || !parsed[i].IsAbs() {
@@ -114,7 +116,11 @@ func init() {
 					continue
 				}
 				emitLib(1)
-				libOut = putText(libOut, parsed[i].ResolveReference(parsed[j]).String())
+				rr := parsed[i].ResolveReference(parsed[j])
+				libOut = putText(libOut, rr.String())
+				emitLib(b2i(rr.Scheme == "https"))
+				libOut = putText(libOut, rr.Host)
+				libOut = putText(libOut, rr.RequestURI())
 			}
 		}
 		// ---- world
